@@ -18,7 +18,10 @@ package main
 //                    (a second waiter on one slot would make the wake-up order a race: `busy`)
 //        cancel T    cancel T's context
 //        close       Close() the instance stored in hydra's swamps map
-// reply: <event> live=<constructed − closed> mapped=<0|1> cur=<index of the mapped wait slot|-> slots=[k:ready:count …]
+//        closeold K / destroyold K   Close() / Destroy() on the K-th instance ever constructed (0,1,…) through a
+//                    handle kept from the time it was mapped — stale or not (gateway.Destroy holds no vigil;
+//                    Destroy always ends in the close callback, also after an earlier Close)
+// reply: <event> live=<instances constructed and not closing/closed> made=<swamp.New calls> mapped=<0|1> cur=<index of the mapped wait slot|-> slots=[k:ready:count …]
 //
 // Thread identity travels in the context passed to SummonSwamp (the hooks hand the ctx back).
 
@@ -35,6 +38,7 @@ import (
 	"time"
 
 	"github.com/hydraide/hydraide/app/core/hydra"
+	"github.com/hydraide/hydraide/app/core/hydra/swamp"
 	"github.com/hydraide/hydraide/app/core/settings"
 	"github.com/hydraide/hydraide/app/name"
 	"github.com/hydraide/hydraide/app/verifhook"
@@ -56,6 +60,7 @@ type c18Thread struct {
 	slot      *hydra.SwampWaiter
 	cancel    context.CancelFunc
 	cancelled bool
+	sawDel    bool // its Delete of the wait slot has been observed
 	done      chan struct{}
 }
 
@@ -67,6 +72,8 @@ type c18World struct {
 	passAll bool
 	threads map[int]*c18Thread
 	slots   []*hydra.SwampWaiter
+	insts   []swamp.Swamp // every instance seen in the swamps map, in construction order
+	destroyed map[int]bool
 	news    atomic.Int64
 	closed  atomic.Int64
 	broken  bool
@@ -134,7 +141,7 @@ func (w *c18World) next(t int, d time.Duration) (c18Event, bool) {
 		select {
 		case ev := <-w.events:
 			w.apply(ev)
-			if ev.t == t {
+			if ev.t == t && ev.name != "leave.del" {
 				return ev, true
 			}
 		case <-deadline:
@@ -157,6 +164,7 @@ func (w *c18World) apply(ev c18Event) {
 	case "giveup":
 		th.stage = "done"
 	case "leave.del":
+		th.sawDel = true
 	default:
 		th.stage = ev.name
 		th.rel = ev.rel
@@ -184,10 +192,29 @@ func (w *c18World) slotIndex(s *hydra.SwampWaiter) string {
 	return "?"
 }
 
+// note records the instance that is mapped right now (handles are what a stale caller would hold).
+func (w *c18World) note() {
+	if s, ok := hydra.VerifMappedSwamp(w.hy, w.swName.Get()); ok {
+		for _, x := range w.insts {
+			if x == s {
+				return
+			}
+		}
+		w.insts = append(w.insts, s)
+	}
+}
+
 func (w *c18World) state() string {
+	w.note()
 	mapped := 0
 	if _, ok := hydra.VerifMappedSwamp(w.hy, w.swName.Get()); ok {
 		mapped = 1
+	}
+	live := 0
+	for _, x := range w.insts {
+		if !x.IsClosing() {
+			live++
+		}
 	}
 	cur := "-"
 	if s, ok := hydra.VerifSummonSlot(w.hy, w.swName.Get()); ok {
@@ -202,7 +229,7 @@ func (w *c18World) state() string {
 		}
 		ss = append(ss, fmt.Sprintf("%d:%d:%d", i, rb, c))
 	}
-	return fmt.Sprintf("live=%d mapped=%d cur=%s slots=[%s]", w.news.Load()-w.closed.Load(), mapped, cur, strings.Join(ss, " "))
+	return fmt.Sprintf("live=%d made=%d mapped=%d cur=%s slots=[%s]", live, w.news.Load(), mapped, cur, strings.Join(ss, " "))
 }
 
 // waitersOf lists the threads parked on a slot (to be called before the slot's owner is released).
@@ -278,7 +305,17 @@ func genC18(rng *rand.Rand, tier string, w *bufio.Writer) {
 	fmt.Fprintln(w, "case 0\ngo 1\ngo 1\ngo 2\ngo 2\ncancel 1\ngo 1\ngo 1\ngo 1\ngo 3\ngo 3\ngo 2\ngo 3\ngo 2\ngo 3")
 	fmt.Fprintln(w, "case 1\ngo 1\ngo 1\ngo 1\ngo 1\ngo 1\ngo 1\ngo 2\ngo 2\ngo 2\ngo 2\ngo 2")
 	fmt.Fprintln(w, "case 2\ngo 1\ngo 1\ngo 2\ngo 2\ngo 1\ngo 1\ngo 1\ngo 1\ngo 2\ngo 2\ngo 2\nclose\ngo 3\ngo 3\ngo 3\ngo 3")
-	for c := 3; c < cases; c++ {
+	// the stale close callback: instance 0 closes, instance 1 is summoned, Destroy() on the old handle
+	// deletes the map entry by name, the next summoner constructs instance 2 next to the live instance 1
+	fmt.Fprintln(w, "case 3\ngo 1\ngo 1\ngo 1\ngo 1\ngo 1\ngo 1\nclose\ngo 2\ngo 2\ngo 2\ngo 2\ngo 2\ngo 2\ndestroyold 0\ngo 3\ngo 3\ngo 3\ngo 3\ncloseold 1\ndestroyold 1\ndestroyold 1")
+	// genuinely concurrent summoners of a fresh name: exactly one instance, no slot left behind
+	fmt.Fprintln(w, "case 4\nburst 24")
+	fmt.Fprintln(w, "case 5\nburst 8")
+	for c := 6; c < cases; c++ {
+		if c%15 == 0 {
+			fmt.Fprintf(w, "case %d\nburst %d\n", c, 4+rng.Intn(28))
+			continue
+		}
 		fmt.Fprintf(w, "case %d\n", c)
 		n := 6 + rng.Intn(maxLen)
 		nt := 2 + rng.Intn(3)
@@ -287,10 +324,14 @@ func genC18(rng *rand.Rand, tier string, w *bufio.Writer) {
 			switch {
 			case r < 86:
 				fmt.Fprintf(w, "go %d\n", 1+rng.Intn(nt))
-			case r < 95:
+			case r < 93:
 				fmt.Fprintf(w, "cancel %d\n", 1+rng.Intn(nt))
-			default:
+			case r < 96:
 				fmt.Fprintln(w, "close")
+			case r < 98:
+				fmt.Fprintf(w, "destroyold %d\n", rng.Intn(3))
+			default:
+				fmt.Fprintf(w, "closeold %d\n", rng.Intn(3))
 			}
 		}
 	}
@@ -312,7 +353,7 @@ func runC18(in *bufio.Scanner, out *bufio.Writer) {
 		if w != nil {
 			w.cleanup()
 		}
-		w = &c18World{hy: rig.Zeus.GetHydra(), events: make(chan c18Event, 64), threads: map[int]*c18Thread{},
+		w = &c18World{hy: rig.Zeus.GetHydra(), events: make(chan c18Event, 64), threads: map[int]*c18Thread{}, destroyed: map[int]bool{},
 			swName: name.New().Sanctuary("c18").Realm("case").Swamp(fmt.Sprintf("%s-%d", caseNo, runID))}
 		verifhook.SetHandler(w.handler)
 	}
@@ -362,6 +403,71 @@ func runC18(in *bufio.Scanner, out *bufio.Writer) {
 				w.timeout()
 				fmt.Fprintf(out, "close unexpected-timeout %s\n", w.state())
 			}
+		case "burst":
+			// N genuinely concurrent SummonSwamp calls (no goroutine is stopped; several waiters share the slot)
+			n, err := strconv.Atoi(f[len(f)-1])
+			if err != nil || len(f) != 2 || n < 2 || n > 64 || len(w.threads) > 0 || w.news.Load() > 0 {
+				fmt.Fprintln(out, "skip")
+				break
+			}
+			var wg sync.WaitGroup
+			start := make(chan struct{})
+			errs := atomic.Int64{}
+			for i := 0; i < n; i++ {
+				wg.Add(1)
+				go func() {
+					defer wg.Done()
+					<-start
+					if _, err := w.hy.SummonSwamp(context.Background(), 1, w.swName); err != nil {
+						errs.Add(1)
+					}
+				}()
+			}
+			close(start)
+			fin := make(chan struct{})
+			go func() { wg.Wait(); close(fin) }()
+			res := "ok"
+			select {
+			case <-fin:
+			case <-time.After(10 * time.Second):
+				w.timeout()
+				res = "unexpected-timeout"
+			}
+			_, mapped := hydra.VerifMappedSwamp(w.hy, w.swName.Get())
+			_, slot := hydra.VerifSummonSlot(w.hy, w.swName.Get())
+			fmt.Fprintf(out, "burst %d %s errors=%d made=%d mapped=%v slotleft=%v\n", n, res, errs.Load(), w.news.Load(), mapped, slot)
+		case "closeold", "destroyold":
+			k, err := strconv.Atoi(f[len(f)-1])
+			if err != nil || len(f) != 2 || k < 0 || k >= len(w.insts) {
+				fmt.Fprintln(out, "skip")
+				break
+			}
+			inst := w.insts[k]
+			res := "noop"
+			if f[0] == "closeold" {
+				if !inst.IsClosing() {
+					res = "ok"
+				}
+			} else if !w.destroyed[k] {
+				res = "ok"
+				w.destroyed[k] = true
+			}
+			fin := make(chan struct{})
+			go func() {
+				if f[0] == "closeold" {
+					inst.Close()
+				} else {
+					inst.Destroy()
+				}
+				close(fin)
+			}()
+			select {
+			case <-fin:
+			case <-time.After(3 * time.Second):
+				w.timeout()
+				res = "unexpected-timeout"
+			}
+			fmt.Fprintf(out, "%s %d %s %s\n", f[0], k, res, w.state())
 		case "go":
 			t, _ := strconv.Atoi(f[1])
 			if t < 1 || t > 6 {
@@ -470,17 +576,17 @@ func runC18(in *bufio.Scanner, out *bufio.Writer) {
 					w.timeout()
 					res = "unexpected-timeout"
 				}
-				// the Delete hook, if it fired, is queued already
+				// the Delete hook, if it fired, is queued already (or was seen with the decrement)
 				for drained := false; !drained; {
 					select {
 					case ev := <-w.events:
-						if ev.t == t && ev.name == "leave.del" {
-							res = "deleted"
-						}
 						w.apply(ev)
 					default:
 						drained = true
 					}
+				}
+				if th.sawDel {
+					res = "deleted"
 				}
 			default:
 				res = "skip"
